@@ -326,6 +326,46 @@ pub fn check_store2(rep: &mut Report, script: &[String], rng: &mut Rng) {
         }
     }
 
+    // ---- RELATION on an annotation variable: the annotations whose text stands in the relation to ANY of the bound
+    // annotation's text selections (also when it has several: complex targets), wherever the constraint is written
+    {
+        let mut anns: Vec<ResultItem<Annotation>> = store.annotations().filter(|a| a.textselections().count() >= 1).collect();
+        anns.sort_by_key(|a| std::cmp::Reverse(a.textselections().count()));
+        anns.truncate(3);
+        let extra: Option<String> = v.data.first().map(|(set, key, _)| format!("DATA {} {}", q(set), q(key)));
+        for a in &anns {
+            for _ in 0..2 {
+                let op = REL_OPS[rng.below(REL_OPS.len())];
+                let run = |text: &str| -> Result<BTreeSet<usize>, String> {
+                    match guarded(std::panic::AssertUnwindSafe(|| -> Result<BTreeSet<usize>, String> {
+                        let qy = Query::try_from(text).map_err(|e| format!("{}", e))?.with_annotationvar("x", a);
+                        Ok(collect_rows(store, qy)?.iter().filter_map(|r| r.iter().next().and_then(|x| if let QueryResultItem::Annotation(y) = x { Some(y.handle().as_usize()) } else { None })).collect())
+                    })) { Ok(r) => r, Err(m) => Err(format!("PANIC {} @{}", m.chars().take(80).collect::<String>(), last_panic_loc())) }
+                };
+                let want: Result<BTreeSet<usize>, String> = guarded(std::panic::AssertUnwindSafe(|| { let mut s = BTreeSet::new(); for ts in a.textselections() { for y in ts.related_text(rel_op(op)).annotations() { s.insert(y.handle().as_usize()); } } s })).map_err(|m| format!("PANIC {}", m));
+                let t1 = format!("SELECT ANNOTATION ?y WHERE RELATION ?x {};", op);
+                let r1 = run(&t1);
+                rep.count(&format!("query2:relation-on-annotation-variable:{}:{}", op, if a.textselections().count() > 1 { "several-selections" } else { "one-selection" }));
+                rep.case(Some(&format!("{}|{}|x=A{}", script.join("|"), t1, a.handle().as_usize())));
+                let c = |t: &str| ctx(&format!("{}   with ?x = annotation #{} ({} text selections)", t, a.handle().as_usize(), a.textselections().count()));
+                match (&r1, &want) {
+                    (Ok(g), Ok(w)) => if g != w { rep.fail("oracle", &format!("C08/relation-on-annotation-variable/{}", op), c(&t1), &format!("annotations related to any of its text selections: {:?}", w), &format!("{:?}", g)); },
+                    (Err(e), _) if e.starts_with("PANIC") => rep.fail("panic", &format!("C08/query-panics/relation-on-annotation-variable/{}", op), c(&t1), "rows or an error", e),
+                    _ => {}
+                }
+                if let Some(ex) = &extra {
+                    let (t2, t3) = (format!("SELECT ANNOTATION ?y WHERE RELATION ?x {}; {};", op, ex), format!("SELECT ANNOTATION ?y WHERE {}; RELATION ?x {};", ex, op));
+                    let (r2, r3) = (run(&t2), run(&t3));
+                    match (&r2, &r3) {
+                        (Ok(g2), Ok(g3)) => if g2 != g3 { rep.fail("oracle", &format!("C08/order-of-constraints/relation-on-annotation-variable/{}", op), c(&t3), &format!("relation first: {:?}", g2), &format!("relation second: {:?}", g3)); },
+                        (Err(e), _) | (_, Err(e)) if e.starts_with("PANIC") => rep.fail("panic", &format!("C08/query-panics/relation-on-annotation-variable/{}", op), c(&t3), "rows or an error", e),
+                        _ => {}
+                    }
+                }
+            }
+        }
+    }
+
     // ---- sub-queries: nested iteration
     for _ in 0..8 {
         let mut outer = match gen_outer(rng, &v, "x") { Some(o) => o, None => continue };
